@@ -30,8 +30,11 @@ DOCS = {
     "listArgs": "query A($v: Int) { items { echo(values: [1, $v]) } }",
     "floats": "{ fnan finf }",
     "subscr": "subscription S { tick }",
+    "dirRoot": "query A($v: Boolean = true) { hello @include(if: $v) n }",
+    "dirNested": "query A($v: Boolean = true) { hello items { ok @skip(if: $v) echo } }",
 }
 VARS = {"none": None, "ok": {"v": 3}, "wrongtype": {"v": "three"}, "null": {"v": None}}
+DOC_VARS = {"dirRoot": {"ok": {"v": False}}, "dirNested": {"ok": {"v": False}}}     # per-document payloads (a Boolean variable)
 EXT = {"code": 7, "detail": ["x", 1]}
 
 
@@ -106,7 +109,7 @@ def request_cases(chk):
             paths = [p.split("/") for p in q["errs"]]
             paths = [[int(x) if x.isdigit() else x for x in p] for p in paths]
             c = respjudge.project(text, q["outcome"],
-                                  lambda: run_config(cfgname, schema, text, VARS[q["vars"]], q["opname"] or None),
+                                  lambda: run_config(cfgname, schema, text, DOC_VARS.get(q["doc"], {}).get(q["vars"], VARS[q["vars"]]), q["opname"] or None),
                                   null_paths=paths, ext_expect=[EXT])
             cases.append(c)
             meta.append({"stage": "request", "doc": q["doc"], "opname": q["opname"], "vars": q["vars"], "cfg": cfgname, "text": text,
